@@ -119,5 +119,15 @@ theorem alias_rejects_args_and_context (aliases : List (List Char × List Char))
     · right; right; exact h
   rw [if_pos this]
 
+/-- the premise of `phases_before_rename` is satisfiable and the conclusion is not vacuous: a sort expression
+    failing for the third file ends the run with status 4 and without a renamer call, whatever the tree -/
+example (fs : FS) : (mainModel realNameRenamer
+    { compileName := true, compileFilter := true, compileSort := true, usageError := false,
+      filterEval := [some true, some false], sortEval := [true, true, false], sortComparable := true,
+      files := [⟨["in".toList], ⟨false, ["a".toList]⟩⟩], gen := fun _ => .path ⟨false, ["b".toList]⟩,
+      strategy := .stop, answers := [], st := { fs := fs } }).exit = 4 := by
+  have e4 : evaluationErrorExit = 4 := by decide
+  simp [mainModel, e4]
+
 end C09
 end Tempren
